@@ -18,3 +18,4 @@ func (hub *VHub) VInternalID(curie string) (uint64, bool) {
 	rid, ok, _ := hub.Store.getIDForURI(rtxn, curie)
 	return rid, ok
 }
+func VB(b bool) string { return vB(b) }
